@@ -530,6 +530,8 @@ PROPS = {
                   "MC_RainCore_expandq.cfg"])],
         switches=[("Bug_NoBoundary", CORE, Q1, None), ("Bug_DropTombNoBase", CORE, Q1, None),
                   ("Bug_ExpandKeepsParents", CORE, "MC_RainCore_expand.cfg", None),
+                  # (directed: 1 2 | 1 2 3 snapshot 3; several million states, thorough tier only)
+                  ("Bug_ExpandNoBoundary", CORE, "MC_RainCore_expandb.cfg", None, "thorough"),
                   ("Bug_ImmDropEarly", CORE, Q1, None),
                   ("Bug_FlushDeepDuringCompaction", CORE, "MC_RainCore_gap.cfg", None)],
         work=[dict(driver="hist", args=["--nops", "70", "--per-file", "6", "--compact-bias", "1"],
@@ -537,7 +539,11 @@ PROPS = {
               dict(driver="hist", args=["--nops", "80", "--per-file", "6", "--profile", "local",
                                         "--nkeys", "12", "--compact-bias", "1", "--seek-bias", "1"],
                    quick=32, thorough=800),
-              dict(driver="hist", gen="core", args=[], quick=400, thorough=20000)]),
+              dict(driver="hist", gen="core", args=[], quick=400, thorough=20000),
+              # a user key straddling two files of level 1 next to a file whose compaction is grown
+              # by the input expansion (recipe in every run, then random operations)
+              dict(driver="hist", args=["--nops", "40", "--per-file", "6", "--profile", "straddle",
+                                        "--compact-bias", "1"], quick=8, thorough=200)]),
     "C10": dict(
         design=[(CORE, [Q1], ["MC_RainCore_small.cfg"]), REOPEN],
         switches=[("Bug_RangeMin", CORE, "MC_RainCore_range.cfg", None),
@@ -787,8 +793,12 @@ def check_prop(prop, tier, seed):
             design.append(d)
             log(f"[{prop}] design model {cfg}: {d['distinct']} distinct states, depth {d['depth']}, {d['wall_s']}s")
     switches = []
-    for sw, module, swcfg, expect in conf["switches"]:
-        r = bug_switch_check(f"bug-{prop}-{sw}", module, swcfg, sw, expect)
+    for swt in conf["switches"]:
+        sw, module, swcfg, expect = swt[:4]
+        if len(swt) > 4 and swt[4] == "thorough" and tier != "thorough":
+            continue
+        r = bug_switch_check(f"bug-{prop}-{sw}", module, swcfg, sw, expect,
+                             timeout=1800 if len(swt) > 4 else 300)
         switches.append(r)
         log(f"[{prop}] switch {sw}: {r['found']} ({r['wall_s']}s)")
 
